@@ -458,6 +458,68 @@ theorem source_trailing (c : Cfg) (o : Oracle) (hnb : NoBlankStart o) (preL post
   simpa [List.append_assoc] using this
 
 
+open NemoVerif.TextLayout in
+/-- Generated-data fact: the statements the stand-alone `...` is rewritten to (`Generated.C13.expansionLines`) contain no line break and
+    begin with no blank (rebuilt on every run). -/
+theorem expansion_ok : ExpansionOK := by
+  intro e he
+  simp only [PreExpand.expansion, Generated.C13.expansionLines, List.mem_map, List.mem_cons, List.mem_nil_iff, or_false] at he
+  obtain ⟨s, hs, rfl⟩ := he
+  rcases hs with rfl | rfl | rfl | rfl | rfl | rfl <;> decide
+
+open NemoVerif.TextLayout in
+/-- Raw file content: uniform scaling of the indentation of every line but the first (each line's leading run of blanks × k, k ≥ 1) through
+    the `...` pre-parsing expansion: the erased token stream (what the LALR parser can see) is the same, errors included.
+    Hypotheses: the first line is not an (indented) `...` statement; no line contains a line break (they come from `split("\n")`); on a
+    `...` line what follows the dots does not begin with a blank (`ScaleLineOK` - the region of the open finding
+    `eol-comment-pre-expansion-v2`, where the rest stays behind with ONE blank); `ExpansionOK` = `expansion_ok`; `ScaleOK` about the two
+    tokenizers on the EXPANDED text. -/
+theorem source_scale (c : Cfg) (k : Nat) (hk : 1 ≤ k) (o o' : Oracle) (hx : ExpansionOK) (l0 : TextLayout.Str) (ls : List TextLayout.Str)
+    (h0 : (∀ ch ∈ l0, ch ≠ '\n') ∧ PreExpand.matchDots l0 = none)
+    (hls : ∀ l ∈ ls, ScaleLineOK l)
+    (hok : ScaleOK k o o' (joinNL (PreExpand.preExpand (l0 :: ls)) ++ ['\n'])) :
+    (seg o' false 0 (joinNL (PreExpand.preExpand (l0 :: ls.map (scaleText k true))) ++ ['\n'])).bind (layoutE c) =
+      (seg o false 0 (joinNL (PreExpand.preExpand (l0 :: ls)) ++ ['\n'])).bind (layoutE c) := by
+  have hE : PreExpand.preExpand (l0 :: ls) = l0 :: PreExpand.run (PreExpand.step false l0).1 ls := by
+    simp [PreExpand.preExpand, PreExpand.run, step_snd_of_noDots false l0 h0.2]
+  have hE' : PreExpand.preExpand (l0 :: ls.map (scaleText k true)) = scaleLines k (l0 :: PreExpand.run (PreExpand.step false l0).1 ls) := by
+    simp [PreExpand.preExpand, PreExpand.run, step_snd_of_noDots false l0 h0.2, run_scale k hk hx ls hls, scaleLines]
+  have hnl : ∀ l ∈ l0 :: PreExpand.run (PreExpand.step false l0).1 ls, ∀ ch ∈ l, ch ≠ '\n' := by
+    intro l hl
+    rcases List.mem_cons.1 hl with h | h
+    · subst h; exact h0.1
+    · exact run_noNL hx ls (fun l' hl' => (hls l' hl').1) _ l h
+  rw [hE] at hok
+  rw [hE, hE', joinNL_nl _ (by simp [scaleLines]), joinNL_nl _ (by simp), ← scaleText_unlines k _ hnl]
+  rw [joinNL_nl _ (by simp)] at hok
+  exact text_layout_scale c k hk o o' _ hok
+
+
+open NemoVerif.TextLayout in
+/-- … with the generated-data hypothesis discharged for the current source tree. -/
+theorem source_scale_current (c : Cfg) (k : Nat) (hk : 1 ≤ k) (o o' : Oracle) (l0 : TextLayout.Str) (ls : List TextLayout.Str)
+    (h0 : (∀ ch ∈ l0, ch ≠ '\n') ∧ PreExpand.matchDots l0 = none)
+    (hls : ∀ l ∈ ls, ScaleLineOK l)
+    (hok : ScaleOK k o o' (joinNL (PreExpand.preExpand (l0 :: ls)) ++ ['\n'])) :
+    (seg o' false 0 (joinNL (PreExpand.preExpand (l0 :: ls.map (scaleText k true))) ++ ['\n'])).bind (layoutE c) =
+      (seg o false 0 (joinNL (PreExpand.preExpand (l0 :: ls)) ++ ['\n'])).bind (layoutE c) :=
+  source_scale c k hk o o' expansion_ok l0 ls h0 hls hok
+
+open NemoVerif.TextLayout in
+/-- non-vacuity of `source_scale`: file `a⏎·a` (toy tokenizer); a `...` line with nothing behind the dots is fine too -/
+example : ((∀ ch ∈ ['a'], ch ≠ '\n') ∧ PreExpand.matchDots ['a'] = none) ∧ (∀ l ∈ [[' ', 'a'], [' ', ' ', '.', '.', '.']], ScaleLineOK l) ∧
+    ScaleOK 2 toyOracle toyOracle (joinNL (PreExpand.preExpand (['a'] :: [[' ', 'a']])) ++ ['\n']) := by
+  refine ⟨⟨by decide, by decide⟩, ?_, toyOracle_scaleOK 2 _⟩
+  intro l hl
+  simp only [List.mem_cons, List.mem_nil_iff, or_false] at hl
+  rcases hl with rfl | rfl
+  · exact ⟨by decide, by intro sp rest h; simp [PreExpand.matchDots, PreExpand.splitSpaces, PreExpand.dropDots] at h⟩
+  · refine ⟨by decide, ?_⟩
+    intro sp rest h
+    simp [PreExpand.matchDots, PreExpand.splitSpaces, PreExpand.dropDots] at h
+    obtain ⟨_, rfl⟩ := h
+    simp
+
 /-! ## Error wrapper -/
 
 /-- With the repaired formatter: whatever exception the parser raised (any class deriving from `Exception`, with
